@@ -59,7 +59,7 @@ pub const BINS: [BinK; 4] = [BinK::Add, BinK::Subtract, BinK::Multiply, BinK::Di
 pub fn min_n(k: &Kind) -> usize {
     use Kind::*;
     match k {
-        Cyber(_) => 3,
+        Cyber(_) => 1,
         LagRsi(_) => 2, // N = 1 gives gamma = 1: the ladder never moves, never any output
         ReFlex(_) => 2,
         Roofing(..) => 2,
